@@ -33,7 +33,7 @@ struct RawOps {
     bool (*search_at_type)(PDU&, int type_sel);
 };
 static Bytes g_data = pattern(40, 0x51);
-static std::vector<int> g_rawlens = {0, 3, 9};
+static std::vector<int> g_rawlens = {0, 3, 9, 12};
 template <class Q, class Opt, class CtorT, class Type> RawOps raw_ops(const std::vector<int>& types) {
     static std::vector<int> ty; ty = types;
     RawOps r;
@@ -113,6 +113,11 @@ static std::string strip_len(const std::string& v) {   // drop "len=<n>," from a
     while (i < v.size()) { if (v.compare(i, 4, "len=") == 0) { size_t j = i + 4; while (j < v.size() && isdigit((unsigned char)v[j])) ++j; if (j < v.size() && v[j] == ',') ++j; i = j; } else o += v[i++]; }
     return o;
 }
+static std::string strip_num(const std::string& v, const char* tag) {   // drop "<tag><digits>" from a rendering
+    std::string o; size_t i = 0, n = strlen(tag);
+    while (i < v.size()) { if (v.compare(i, n, tag) == 0) { size_t j = i + n; while (j < v.size() && isdigit((unsigned char)v[j])) ++j; i = j; } else o += v[i++]; }
+    return o;
+}
 static bool equal_modulo_padding(const std::string& want, const std::string& got) {
     size_t i = 0, j = 0;
     while (i < want.size() && j < got.size()) {
@@ -159,6 +164,8 @@ static std::string wire_check(S& s) {
         if (always_derived(kv.first) || protocol_tag(kv.first) || size_key(kv.first) || type_dependent(kv.first) || kv.first == "BootP.vend" || kv.first == "Dot1Q.append_padding") continue;
         if (g_cls == "ICMPv6" && !g_applicable.count("ICMPv6.options") && b[kv.first].find("option_not_found") != std::string::npos) continue;   // this message type has no option area
         if (kv.first == "ICMPv6.multicast_address_records" && strip_aux(kv.second) == strip_aux(b[kv.first])) continue;   // aux data is counted in 32-bit words
+        // the checksum inside an RFC 4884 extension structure is derived (0 until serialized)
+        if ((kv.first == "ICMP.extensions" || kv.first == "ICMPv6.extensions") && strip_num(kv.second, "checksum=") == strip_num(b[kv.first], "checksum=")) continue;
         // IPv6 extension headers are padded with zeros to whole 8-octet units on the wire: the parsed data is the built data plus that padding
         if (kv.first == "IPv6.headers" && equal_modulo_padding(strip_len(kv.second), strip_len(b[kv.first]))) continue;
         if (b[kv.first] != kv.second && !equal_modulo_padding(kv.second, b[kv.first]))
@@ -318,12 +325,22 @@ static std::vector<ClassCfg> classes() {
         r.search_at_type = [](PDU& p, int ts) { static const int ty[3] = {IPv6::HOP_BY_HOP, IPv6::DESTINATION_OPTIONS, IPv6::ROUTING};
                                                 return static_cast<IPv6&>(p).search_header((IPv6::ExtensionHeader)ty[ts % 3]) != 0; };
         v.push_back(ClassCfg{"IPv6", &make_q<IPv6>, &parse_q<IPv6>, r, true, {}, {}, false});
+        v.push_back(ClassCfg{"IPv6", &make_q<IPv6>, &parse_q<IPv6>, r, true, {}, {}, true});
     }
+    // error messages that carry an RFC 4884 extension structure, a quoted datagram and the length octet: the rest-of-header fields (Next-Hop
+    // MTU, pointer) share their octets with the derived length; setting them must still reach the wire when the extension machinery is active
+    v.push_back(ClassCfg{"ICMP", []() -> PDU* { ICMP* i = new ICMP(ICMP::DEST_UNREACHABLE); i->code(4); i->extensions().add_extension(ICMPExtension(1, 1));
+                             i->use_length_field(true); i->inner_pdu(IP("2.2.2.2", "1.1.1.1") / UDP(7, 9) / RawPDU(pattern(9))); return i; },
+                         &parse_q<ICMP>, RawOps(), false, {}, {"type"}});
+    v.push_back(ClassCfg{"ICMP", []() -> PDU* { ICMP* i = new ICMP(ICMP::PARAM_PROBLEM); i->extensions().add_extension(ICMPExtension(1, 1));
+                             i->inner_pdu(IP("2.2.2.2", "1.1.1.1") / UDP(7, 9) / RawPDU(pattern(140))); return i; },
+                         &parse_q<ICMP>, RawOps(), false, {}, {"type"}});
     return v;
 }
 
 static void run_class(const ClassCfg& c, int variant, int maxdepth, const std::string* rp = 0, std::string* rerr = 0) {
     g_cls = c.name; g_make = c.make; g_parse = c.parse; g_preload = c.preload;
+    mc::dom::large_blobs() = (c.name == "DHCPv6" || c.name == "PPPoE");     // option / tag lengths are 16 bits wide: 300-byte blobs are representable
     static RawOps raw; raw = c.raw; g_raw = c.has_raw ? &raw : 0;
     std::unique_ptr<PDU> probe(c.make());
     if (!probe) return;
@@ -338,11 +355,11 @@ static void run_class(const ClassCfg& c, int variant, int maxdepth, const std::s
     }
     Explorer<S, Op> ex;
     for (size_t i = 0; i < g_setters.size(); ++i) for (int k = 0; k < g_setters[i].ns; ++k) ex.alphabet.push_back(Op{0, (int)i, k});
-    g_rawlens = (c.name == "ICMPv6") ? std::vector<int>{6, 14, 22} : (c.name == "IPv6") ? std::vector<int>{6, 7, 15, 22} : std::vector<int>{0, 3, 9};   // ND options are whole multiples of 8 octets
+    g_rawlens = (c.name == "ICMPv6") ? std::vector<int>{6, 14, 22} : (c.name == "IPv6") ? std::vector<int>{6, 7, 15, 22} : std::vector<int>{0, 3, 9, 12};   // 9 and 12: two different sizes above PDUOption's 8-byte inline buffer   // ND options are whole multiples of 8 octets
     if (g_raw) { for (int t = 0; t < 3; ++t) for (int len : g_rawlens) ex.alphabet.push_back(Op{1, t, len}); if (c.name != "IPv6") { ex.alphabet.push_back(Op{2, 0, 0}); ex.alphabet.push_back(Op{2, 1, 0}); } }
     ex.context = "class=" + c.name + " variant=" + std::to_string(variant) + " depth=" + std::to_string(maxdepth);
     ex.op_str = [](const Op& o) { return o.kind == 0 ? g_setters[o.a].name + "#" + std::to_string(o.b) : o.kind == 1 ? "add" + std::to_string(o.a) + "." + std::to_string(o.b) : "rem" + std::to_string(o.a); };
-    ex.init = []() { S s; s.o.reset(g_make()); if (g_preload && g_raw) { g_raw->add(*s.o, 0, g_rawlens[1]); g_raw->add(*s.o, 1, g_rawlens[2]); g_raw->add(*s.o, 2, g_rawlens[0]); g_raw->add(*s.o, 0, g_rawlens[2]); } return s; };
+    ex.init = []() { S s; s.o.reset(g_make()); if (g_preload && g_raw) { g_raw->add(*s.o, 0, g_rawlens[1]); g_raw->add(*s.o, 1, g_rawlens[2]); g_raw->add(*s.o, 2, g_rawlens.back()); g_raw->add(*s.o, 0, g_rawlens[0]); } return s; };
     ex.canon = [](const S& s) { std::string o; for (auto& kv : snapshot(*s.o)) o += kv.first + "=" + kv.second + ";"; for (auto& kv : s.expect) o += kv.first + ">" + kv.second; return o; };
     // deeper levels use fewer samples per setter (deviation bound on the argument domain)
     ex.enabled = [](const S& s, const Op& o) { if (o.kind != 0) return true; int d = s.depth < 3 ? s.depth : 3; return o.b < g_kmax[d]; };
@@ -356,11 +373,65 @@ static void run_class(const ClassCfg& c, int variant, int maxdepth, const std::s
     if (ok) R.count("classes_completed");
 }
 
+// ---- RTP: add_csrc_id / remove_csrc_id / add_extension_data / remove_extension_data have no same-named getter, so they are not in the
+// generated setter table; a small BFS of its own against two plain lists (identifiers may repeat: removal takes the FIRST match only).
+struct RtpOp { int kind; uint32_t v; };   // 0 add csrc, 1 remove csrc, 2 add ext, 3 remove ext
+struct SR { RTP o; std::vector<uint32_t> cs, ex; };
+static void run_rtp(const std::string* rp = 0, std::string* rerr = 0) {
+    Explorer<SR, RtpOp> ex;
+    for (uint32_t v : {7u, 0x01020304u}) { ex.alphabet.push_back(RtpOp{0, v}); ex.alphabet.push_back(RtpOp{2, v}); }
+    for (uint32_t v : {7u, 0x01020304u, 5u}) { ex.alphabet.push_back(RtpOp{1, v}); ex.alphabet.push_back(RtpOp{3, v}); }
+    ex.context = "variant=rtp depth=0";
+    ex.op_str = [](const RtpOp& o) { static const char* n[] = {"addc", "remc", "adde", "reme"}; return std::string(n[o.kind]) + std::to_string(o.v); };
+    ex.init = []() { return SR(); };
+    ex.canon = [](const SR& s) { std::string c; for (uint32_t v : s.cs) c += std::to_string(v) + ","; c += "|"; for (uint32_t v : s.ex) c += std::to_string(v) + ","; return c + "|" + std::to_string((int)s.o.extension_bit()); };
+    ex.enabled = [](const SR& s, const RtpOp& o) { return !(o.kind == 0 && s.cs.size() >= 3) && !(o.kind == 2 && s.ex.size() >= 3); };
+    ex.nontrivial = [](const SR& s) { return s.cs.size() + s.ex.size() >= 2; };
+    ex.step = [](SR& s, const RtpOp& o) -> std::string {
+        auto erase_first = [](std::vector<uint32_t>& l, uint32_t v) { auto it = std::find(l.begin(), l.end(), v); if (it == l.end()) return false; l.erase(it); return true; };
+        if (o.kind == 0) { s.o.add_csrc_id(o.v); s.cs.push_back(o.v); }
+        else if (o.kind == 2) { s.o.add_extension_data(o.v); s.ex.push_back(o.v); }
+        else if (o.kind == 1) { bool want = erase_first(s.cs, o.v), got = s.o.remove_csrc_id(o.v); if (want != got) return "api:rtp:remove-csrc-result|returned " + std::to_string(got); }
+        else { bool want = erase_first(s.ex, o.v), got = s.o.remove_extension_data(o.v); if (want != got) return "api:rtp:remove-extension-result|returned " + std::to_string(got); }
+        auto same = [](const std::vector<uint32_t>& got, const std::vector<uint32_t>& want) { if (got.size() != want.size()) return false; for (size_t i = 0; i < got.size(); ++i) if (Endian::be_to_host(got[i]) != want[i]) return false; return true; };
+        auto judge = [&](RTP& r, const char* where) -> std::string {
+            std::vector<uint32_t> c(r.csrc_ids().begin(), r.csrc_ids().end());
+            if (!same(c, s.cs)) return std::string("api:rtp:csrc-list|") + where + ": " + std::to_string(c.size()) + " identifiers, model has " + std::to_string(s.cs.size());
+            if ((size_t)r.csrc_count() != s.cs.size()) return std::string("api:rtp:csrc-count|") + where + ": csrc_count " + std::to_string((int)r.csrc_count()) + ", model " + std::to_string(s.cs.size());
+            for (uint32_t v : {7u, 0x01020304u, 5u}) if (r.search_csrc_id(v) != (std::find(s.cs.begin(), s.cs.end(), v) != s.cs.end())) return std::string("api:rtp:search-csrc|") + where;
+            if (r.extension_bit()) {
+                std::vector<uint32_t> e(r.extension_data().begin(), r.extension_data().end());
+                if (!same(e, s.ex)) return std::string("api:rtp:extension-data|") + where;
+                if ((size_t)r.extension_length() != s.ex.size()) return std::string("api:rtp:extension-length|") + where;
+            } else if (!s.ex.empty()) return std::string("api:rtp:extension-bit-clear-with-data|") + where;
+            uint32_t hs = 12 + 4 * (uint32_t)s.cs.size() + (r.extension_bit() ? 4 + 4 * (uint32_t)s.ex.size() : 0);
+            if (r.header_size() != hs) return std::string("api:rtp:header-size|") + where + ": " + std::to_string(r.header_size()) + " instead of " + std::to_string(hs);
+            return "";
+        };
+        std::string e = judge(s.o, "object");
+        if (!e.empty()) return e;
+        RTP c(s.o); c.inner_pdu(RawPDU(pattern(5, 0x31)));
+        Bytes y = c.serialize();
+        if (y.size() != c.size()) return "api:rtp:size|serialization has " + std::to_string(y.size()) + " bytes, size() " + std::to_string(c.size());
+        try { RTP q(y.data(), (uint32_t)y.size());
+              e = judge(q, "re-parsed");
+              if (!e.empty()) return "wire:" + e.substr(4) + " wire=" + hex(y);
+              const RawPDU* rw = q.find_pdu<RawPDU>();
+              if (!rw || rw->payload() != pattern(5, 0x31)) return "wire:rtp:payload|payload changed through the wire: " + hex(y);
+        } catch (malformed_packet&) { return "wire:own-serialization-rejected:RTP|" + hex(y); }
+        R.count("wire_roundtrips");
+        return "";
+    };
+    if (rp) { *rerr = ex.replay(*rp); return; }
+    if (ex.run()) R.count("rtp_list_bfs_to_fixpoint");
+}
+
 int main(int argc, char** argv) {
     const int NJ = 64;
     return run_main(argc, argv, NJ, NJ,
         [&](int job) {
             auto cs = classes();
+            if (job == NJ - 1) run_rtp();
             for (size_t i = job; i < cs.size(); i += NJ) {
                 // quick: depth 2 (all samples, then 2). thorough: small classes depth 3 (all, 2, 1); classes with many setters depth 2 (all, 4)
                 int depth = 2; g_kmax[0] = 1000; g_kmax[1] = 2; g_kmax[2] = 1;
@@ -388,6 +459,7 @@ int main(int argc, char** argv) {
         },
         [&](const std::string& kase) -> int {
             auto kv = parse_kv(kase);
+            if (kv["variant"] == "rtp") { std::string err, ops = kv["ops"]; run_rtp(&ops, &err); if (!err.empty()) { printf("violation reproduced: %s\n", err.c_str()); return 1; } printf("history replayed, all invariants hold\n"); return 0; }
             auto cs = classes();
             size_t vi = (size_t)atoi(kv["variant"].c_str());
             if (vi < cs.size()) { const ClassCfg& c = cs[vi];
